@@ -148,6 +148,8 @@ def symmetric_extension_hierarchy(
         probs = [1 / len(states)] * len(states)
     __is_probs_valid(probs)
 
+    # Work on a copy so that the list passed in by the caller is not modified below.
+    states = list(states)
     dim_xy, n_cols = states[0].shape
 
     # The variable `states` is provided as a list of vectors. Transform them
